@@ -107,3 +107,74 @@ func log2near(w uint64) int {
 	}
 	return best
 }
+
+type c04singleCase struct {
+	Len  int    // message length (all bytes zero)
+	Mode string // oneshot | single-write | two-writes
+}
+
+// TestVX_C04Single gives messages of 2^28 bytes and more in ONE call: the one-shot function, a single Write, and two
+// Writes that both exceed 2^27 bytes. These are the lengths at which a byte count turned into a bit count inside an int
+// wraps on a 32-bit target (the w32 part runs this driver as a GOARCH=386 binary) and at which 32-bit block counters
+// come into reach on any target. The message is untouched anonymous memory (all zero); the oracle is streaming sm3ref.
+func TestVX_C04Single(t *testing.T) {
+	r := vx.Begin("C04", "sm3-single-huge", "all-zero messages of length L in {2^28-1, 2^28, 2^28+1, 2^28+55, 2^28+64, 2^29-1, 2^29, 2^29+9} given in one piece: SumSM3(m); New, one Write(m) (return value checked), Sum, Sum again; New, Write(m[:L/2+3]), Write(m[L/2+3:]), Sum. Oracle: streaming sm3ref with the 64-bit length field (anchored on OpenSSL digests in the sm3-huge part)")
+	defer r.End()
+	lens := []int{1<<28 - 1, 1 << 28, 1<<28 + 1, 1<<28 + 55, 1<<28 + 64, 1<<29 - 1, 1 << 29, 1<<29 + 9}
+	zero := make([]byte, 1<<20)
+	for li, L := range lens {
+		if !vx.MineIdx(li) {
+			continue
+		}
+		ref := sm3ref.NewStream()
+		for left := L; left > 0; {
+			c := len(zero)
+			if c > left {
+				c = left
+			}
+			ref.Write(zero[:c])
+			left -= c
+		}
+		want := ref.Sum()
+		msg := make([]byte, L) // fresh zero pages from the OS: costs no RAM until read
+		for _, mode := range []string{"oneshot", "single-write", "two-writes"} {
+			r.Eval(1)
+			cs := c04singleCase{L, mode}
+			var got, again []byte
+			kind, pm := vx.Try(func() {
+				switch mode {
+				case "oneshot":
+					d := sm3.SumSM3(msg)
+					got = d[:]
+					again = got
+				case "single-write":
+					h := sm3.New()
+					n, err := h.Write(msg)
+					if n != L || err != nil {
+						r.Violation("sm3:single:Write-return", fmt.Sprintf("Write of %d bytes returned (%d, %v)", L, n, err), cs)
+					}
+					got = h.Sum(nil)
+					again = h.Sum(nil)
+				case "two-writes":
+					h := sm3.New()
+					h.Write(msg[:L/2+3])
+					h.Write(msg[L/2+3:])
+					got = h.Sum(nil)
+					again = h.Sum(nil)
+				}
+			})
+			if kind != "" {
+				r.Violation("sm3:single:panic:"+mode, pm, cs)
+				continue
+			}
+			if !bytes.Equal(got, want[:]) {
+				r.Violation(fmt.Sprintf("sm3:single:digest:%s:len=2^%d%+d", mode, log2near(uint64(L)), int64(L)-int64(1)<<uint(log2near(uint64(L)))), fmt.Sprintf("%s of %d zero bytes = %x, GB/T 32905 digest is %x", mode, L, got, want), cs)
+			}
+			if !bytes.Equal(got, again) {
+				r.Violation("sm3:single:Sum-differs", fmt.Sprintf("second Sum after %d bytes differs", L), cs)
+			}
+			r.Shape(fmt.Sprintf("%s:%d", mode, L))
+			r.Sample(cs)
+		}
+	}
+}
